@@ -18,6 +18,7 @@ import (
 	"encoding/hex"
 	"encoding/json"
 	"fmt"
+	"math/big"
 	"math/rand"
 	"os"
 	"sort"
@@ -995,7 +996,17 @@ func c20SpecialIdentities(run *c20run, fail func(mon, key, detail string)) {
 			}
 		}
 	}
-	for _, name := range []string{"X", "Y"} {
+	// two keys that are negations of each other modulo the group order (d and n-d): distinct legal keys
+	// whose public points share their x coordinate
+	if base, _, err := crypto.GenerateSecp256k1Key(rd); err == nil {
+		bb, _ := base.Raw()
+		nd := new(big.Int).Sub(btcec.S256().N, new(big.Int).SetBytes(bb))
+		if neg, err := crypto.UnmarshalSecp256k1PrivateKey(nd.FillBytes(make([]byte, 32))); err == nil {
+			found["negation-pair-first"] = base
+			found["negation-pair-second"] = neg
+		}
+	}
+	for _, name := range []string{"X", "Y", "negation-pair-first", "negation-pair-second"} {
 		special, ok := found[name]
 		if !ok {
 			continue
@@ -1019,6 +1030,9 @@ func c20SpecialIdentities(run *c20run, fail func(mon, key, detail string)) {
 		}
 		idn, err := idp.CreateIdentity(ctx, &idp.CreateIdentityOptions{Keystore: ks, ID: uid, Type: "orbitdb"})
 		what := fmt.Sprintf("identity whose key has a public point with %s starting with 00", name)
+		if len(name) > 1 {
+			what = "identity whose key is one of a pair d, n-d (same x coordinate): " + name
+		}
 		if err != nil {
 			fail("identity-creation", "C20:createidentity-error", what+": "+err.Error())
 			continue
